@@ -46,6 +46,26 @@ pub async fn run_socket_worker(
     server_start_instant: ServerStartInstant,
     worker_index: usize,
 ) -> anyhow::Result<()> {
+    #[cfg(aquatic_verif)]
+    if aquatic_common::verif::probe("http/socket/start") {
+        return Ok(());
+    }
+    // Let a test driver choose which socket worker a connection lands on
+    #[cfg(aquatic_verif)]
+    let config = {
+        let mut config = config;
+
+        if ::std::env::var("AQV_PORT_PER_WORKER").is_ok() {
+            let port_v4 = config.network.address_ipv4.port() + worker_index as u16;
+            let port_v6 = config.network.address_ipv6.port() + worker_index as u16;
+
+            config.network.address_ipv4.set_port(port_v4);
+            config.network.address_ipv6.set_port(port_v6);
+        }
+
+        config
+    };
+
     let config = Rc::new(config);
 
     let tcp_listeners = {
@@ -136,6 +156,11 @@ impl ListenerState {
         let mut incoming = listener.incoming();
 
         while let Some(stream) = incoming.next().await {
+            #[cfg(aquatic_verif)]
+            if aquatic_common::verif::probe("http/socket/accept") {
+                return;
+            }
+
             match stream {
                 Ok(stream) => {
                     let opt_valid_until = ValidUntil::new(
@@ -188,6 +213,11 @@ impl ListenerState {
         connection_id: ConnectionId,
         stream: TcpStream,
     ) {
+        #[cfg(aquatic_verif)]
+        if aquatic_common::verif::probe("http/socket/connection") {
+            return;
+        }
+
         #[cfg(feature = "metrics")]
         let active_connections_gauge = ::metrics::gauge!(
             "aquatic_active_connections",
